@@ -1,103 +1,142 @@
 (* C12 -- regeneration over existing output is safe for every history of runs.
 
-   Model: Gen/RegenBase.v (file system = path -> option (content id, mode, owned, is-dir); env = superuser flag, umask,
-   can_create), Generated/Gen_Regen.v (translated from /repo on every run: _handle_overwrite, SetFileMode.__call__, the call
-   skeletons of the per-file writers, phase order, CLI post-processor list), Gen/Regen.v (interpreter, step, history).
-   `render` (configuration class, path) -> content id is universally quantified: the theorems hold for every rendering
-   function.  Proofs: Gen/RegenThm.v.  Statements only here. *)
+   Model: Gen/RegenBase.v (output tree = path -> option entry, entry = regular file or directory with content id, mode,
+   owner flag; env = superuser flag, umask, and the SHAPE of the path space: ancestors, child), Generated/Gen_Regen.v
+   (translated from /repo on every run: _handle_overwrite, SetFileMode.__call__, the call skeletons of the per-file writers,
+   phase order, _should_generate_support, SupportGenerator.get_templates' selection, CLI post-processor list), Gen/Regen.v
+   (interpreter over flattened action lists, step, interrupted runs = prefixes, history of runs and crashes).
+
+   NAMED PREMISES (not proved here, by design):
+   - render_independent render : the text written to a path depends on (configuration class, path) only -- not on the tree
+     as it is (no output file is read back), not on earlier runs in the process, not on the clock.  This is the whole
+     content of "byte-identical to a fresh run" beyond "every target is re-opened with mode w"; it is discharged by
+     C10 (Properties/C10.v: C10_generate_code_resets, C10_line_pps_reset, C10_cache_transparent, C10_closure_indep: per-type
+     output ignores siblings, order and earlier runs) and C07 (Properties/C07.v: C07_run_env_indep_general,
+     C07_output_dir_history_irrelevant, C07_all_ambient_reads_modelled: no dependence on clock/hash seed/output directory
+     history; python target only up to the findings listed there).  The C12 check masks C07's known volatile lines.
+   - env_wf e : no path is its own ancestor.
+   - compatible e c c' : what c needs as a directory, c' never writes as a file, and vice versa (frozen directory skeleton);
+     holds for all configurations of one namespace/language family by C11's targets_inside (paths = outdir ++ safe components,
+     files end in an extension) -- stated, not derived, because C12's paths are opaque.
+   - c11_targets_distinct (Gen/RegenC11.v): C11's NoDup of the derived type targets.
+   Proofs: Gen/RegenThm.v, Gen/RegenC11.v.  Statements only here. *)
 From Coq Require Import NArith List Bool.
-From Verif Require Import RegenBase Gen_Regen Regen RegenThm.
+From Verif Require Import RegenBase Gen_Regen Regen RegenThm RegenC11.
 Import ListNotations.
 Open Scope N_scope.
 
-(* After ANY history h of runs (successful or not, any configurations) from ANY start state s0 -- foreign files, read-only
-   leftovers, files of other users, directories in the way --, a successful non-dry run whose file post-processors contain a
-   SetFileMode (the command line always appends one: cli_setfilemode_last) leaves every file it generates with its own text
-   and the requested mode. *)
-Theorem regen_canonical : forall render e h s0 c p,
-  c_dryrun c = false -> c_filepps c <> [] ->
-  snd (step render e (history render e s0 h) c) = Ok -> In p (targets c) ->
-  obs (fst (step render e (history render e s0 h) c) p) = canonical render e c p.
-Proof. exact RegenThm.regen_canonical. Qed.
-Print Assumptions regen_canonical.
-
-(* ... which is what the same run leaves in an empty directory *)
-Theorem regen_equals_fresh : forall render e h s0 c p,
-  c_dryrun c = false -> c_filepps c <> [] ->
+(* After ANY history h of complete and interrupted runs from ANY start tree s0, a successful non-dry run whose file
+   post-processors contain a SetFileMode (the command line always appends one: cli_setfilemode_last) leaves at every target
+   the file a run into the empty directory leaves: same content id, requested mode.  Trigger excluded (see
+   copy_into_directory_refuted): a directory sits where shutil.copy is about to write a support file. *)
+Theorem regen_equals_fresh : forall render e, render_independent render -> env_wf e -> forall h s0 c p,
+  c_dryrun c = false -> c_filepps c <> [] -> copy_not_anc e c -> dir_at_copy_target c (history render e s0 h) = false ->
   snd (step render e (history render e s0 h) c) = Ok -> snd (step render e empty_fs c) = Ok -> In p (targets c) ->
   obs (fst (step render e (history render e s0 h) c) p) = obs (fst (step render e empty_fs c) p).
 Proof. exact RegenThm.regen_equals_fresh. Qed.
 Print Assumptions regen_equals_fresh.
 
-(* the content half needs no SetFileMode *)
-Theorem regen_content_canonical : forall render e h s0 c p,
-  c_dryrun c = false -> snd (step render e (history render e s0 h) c) = Ok -> In p (targets c) ->
-  exists f, fst (step render e (history render e s0 h) c) p = Some f /\ f_cid f = render (c_class c) p.
-Proof. exact RegenThm.regen_content_canonical. Qed.
+Theorem regen_canonical : forall render e, render_independent render -> env_wf e -> forall s c p,
+  c_dryrun c = false -> c_filepps c <> [] -> copy_not_anc e c -> dir_at_copy_target c s = false ->
+  snd (step render e s c) = Ok -> In p (targets c) ->
+  obs (fst (step render e s c) p) = canonical render e c p.
+Proof. exact RegenThm.canonical_any_state. Qed.
+Print Assumptions regen_canonical.
+
+(* the content half needs no SetFileMode; the target is a regular file *)
+Theorem regen_content_canonical : forall render e, render_independent render -> env_wf e -> forall s c p,
+  c_dryrun c = false -> copy_not_anc e c -> dir_at_copy_target c s = false ->
+  snd (step render e s c) = Ok -> In p (targets c) ->
+  exists f, fst (step render e s c) p = Some f /\ f_isdir f = false /\ f_cid f = render empty_fs 0 (c_class c) p.
+Proof. exact RegenThm.content_any_state. Qed.
 Print Assumptions regen_content_canonical.
 
-(* the mode half does: full statement refuted for configurations without SetFileMode (Python API only), witness: a 0o444
-   leftover is left with 0o664 where the fresh file has 0o644 *)
-Theorem mode_without_setfilemode_refuted : forall render : N -> path -> N,
-  exists e s c p, c_filepps c = [] /\ c_dryrun c = false /\ In p (targets c) /\
-                  snd (step render e s c) = Ok /\ snd (step render e empty_fs c) = Ok /\
-                  obs (fst (step render e s c) p) <> obs (fst (step render e empty_fs c) p).
-Proof. exact RegenThm.mode_without_setfilemode_refuted. Qed.
-Print Assumptions mode_without_setfilemode_refuted.
+(* FULL STATEMENT REFUTED in the excluded corner, as long as /repo copies support files with shutil.copy behind a gate that
+   accepts directories (the premise is computed from the translated model): the run reports success, the target is still
+   a directory, now chmod-ed to the file mode, and a non-target entry has appeared inside it. *)
+Theorem copy_into_directory_refuted : copy_into_dir_quirk = true ->
+  exists e s c p, c_dryrun c = false /\ c_filepps c <> [] /\ In p (targets c) /\ dir_at_copy_target c s = true /\
+    snd (step wit_render e s c) = Ok /\
+    fs_is_dir (fst (step wit_render e s c)) p = true /\
+    obs (fst (step wit_render e s c) p) = Some (0, 292) /\
+    ~ In (child e p) (targets c) /\ s (child e p) = None /\
+    obs (fst (step wit_render e s c) (child e p)) = Some (1070002, 416).
+Proof. exact RegenThm.copy_into_directory_refuted. Qed.
+Print Assumptions copy_into_directory_refuted.
 
 (* the command line appends SetFileMode(file_mode) unconditionally and last *)
 Theorem cli_setfilemode_last : last cli_pp_list (false, KTrim) = (true, KSetFileMode).
 Proof. exact RegenThm.cli_setfilemode_last. Qed.
 Print Assumptions cli_setfilemode_last.
 
-(* Overwriting never gets stuck on what earlier runs left behind: for an unprivileged user too (superuser e = false), if the
-   start state only contains entries the user may chmod, then after any history an overwriting run succeeds, whatever the
-   permission bits are by then.  Preconditions: missing targets can be created (directory chain writable), no directory
-   sits at a target path. *)
-Theorem regen_total_history : forall render e h s0 c,
-  chmodable e s0 ->
-  (forall p, In p (targets c) -> can_create e p = true /\ (forall f, s0 p = Some f -> f_isdir f = false)) ->
-  c_allow c = true -> c_dryrun c = false ->
-  snd (step render e (history render e s0 h) c) = Ok.
-Proof. exact RegenThm.regen_total_history. Qed.
-Print Assumptions regen_total_history.
+(* ---- what a run can touch ------------------------------------------------------------------------------------------ *)
+(* every entry that differs after a run (successful or failed) is a target, or <copied target>/<resource name>, or a
+   directory above a target that did not exist and has been created *)
+Theorem written_in_footprint : forall render e s c q, fst (step render e s c) q <> s q ->
+  In q (targets c) \/ In q (child_targets e c) \/
+  (In q (dir_targets e c) /\ s q = None /\ fst (step render e s c) q = Some (new_dir e)).
+Proof. exact RegenThm.written_in_footprint. Qed.
+Print Assumptions written_in_footprint.
 
-(* files a run does not generate keep content, mode, everything -- in every run, failed or not, and through whole histories *)
-Theorem foreign_untouched : forall render e s c q, ~ In q (targets c) -> fst (step render e s c) q = s q.
-Proof. exact RegenThm.foreign_untouched_step. Qed.
+(* ... where the targets are derived from the translated decisions, for every --generate-support / --omit-serialization-support *)
+Theorem targets_derived : forall c,
+  targets c = (if should_generate_support (c_gensup c) (c_omit c)
+               then map fst (support_selection (c_omit c) (c_sersup c) (c_typesup c)) else [])
+              ++ (if generates_types (c_gensup c) then c_types c else []).
+Proof. exact RegenThm.targets_derived. Qed.
+Print Assumptions targets_derived.
+
+(* ... and the type targets are C11's derived list, pairwise distinct by C11's theorem *)
+Theorem targets_distinct_from_c11 : forall strop es ext stem outdir g perm types (enc : Namespace.path -> path),
+  (forall a b, enc a = enc b -> a = b) ->
+  NoDup (Namespace.c11_targets strop es ext stem outdir g perm types) ->          (* c11_targets_distinct *)
+  forall c, c_types c = derived_types strop es ext stem outdir g perm types enc ->
+  NoDup (map fst (support_selection (c_omit c) (c_sersup c) (c_typesup c))) ->
+  (forall p, In p (map fst (support_selection (c_omit c) (c_sersup c) (c_typesup c))) -> ~ In p (c_types c)) ->
+  NoDup (targets c).
+Proof. exact RegenC11.c12_targets_distinct. Qed.
+Print Assumptions targets_distinct_from_c11.
+
+(* existing entries that are neither targets nor inside a copied-target directory keep content, mode, everything -- in every
+   run, failed or not; a missing path stays missing unless it is a directory above a target *)
+Theorem foreign_untouched : forall render e s c q,
+  ~ In q (targets c) -> ~ In q (child_targets e c) -> (s q <> None \/ ~ In q (dir_targets e c)) ->
+  fst (step render e s c) q = s q.
+Proof. exact RegenThm.foreign_untouched. Qed.
 Print Assumptions foreign_untouched.
 
 Theorem history_foreign : forall render e h s q,
-  (forall c, In c h -> ~ In q (targets c)) -> history render e s h q = s q.
-Proof. exact RegenThm.foreign_untouched_history. Qed.
+  (forall ev, In ev h -> ~ In q (targets (ev_cfg ev)) /\ ~ In q (child_targets e (ev_cfg ev))) ->
+  (s q <> None \/ forall ev, In ev h -> ~ In q (dir_targets e (ev_cfg ev))) ->
+  history render e s h q = s q.
+Proof. exact RegenThm.history_foreign. Qed.
 Print Assumptions history_foreign.
 
-(* --no-overwrite: nothing that existed before the run changes (content, mode, owner), dry or not, through whole histories *)
-Theorem no_overwrite_safe : forall render e s c q, c_allow c = false -> s q <> None -> fst (step render e s c) q = s q.
+Theorem foreign_dirs_only : forall render e h s q,
+  (forall ev, In ev h -> ~ In q (targets (ev_cfg ev)) /\ ~ In q (child_targets e (ev_cfg ev))) ->
+  history render e s h q = s q \/ (s q = None /\ history render e s h q = Some (new_dir e)).
+Proof. exact RegenThm.foreign_dirs_only. Qed.
+Print Assumptions foreign_dirs_only.
+
+(* the round-2 form "what is not a target does not change" is false: parent directories appear *)
+Theorem foreign_unconditional_refuted :
+  exists e s c q, ~ In q (targets c) /\ snd (step wit_render e s c) = Ok /\ fst (step wit_render e s c) q <> s q.
+Proof. exact RegenThm.foreign_unconditional_refuted. Qed.
+Print Assumptions foreign_unconditional_refuted.
+
+(* ---- --no-overwrite ---------------------------------------------------------------------------------------------------- *)
+(* nothing that existed before the run changes (files, directories, inside directories at copied targets too) *)
+Theorem no_overwrite_safe : forall render e, render_independent render -> env_wf e -> forall s c q,
+  c_allow c = false -> s q <> None -> fst (step render e s c) q = s q.
 Proof. exact RegenThm.no_overwrite_safe. Qed.
 Print Assumptions no_overwrite_safe.
 
-Theorem no_overwrite_safe_history : forall render e h s0 q,
-  (forall c, In c h -> c_allow c = false) -> s0 q <> None -> history render e s0 h q = s0 q.
+Theorem no_overwrite_safe_history : forall render e, render_independent render -> env_wf e -> forall h s0 q,
+  (forall ev, In ev h -> exists c, ev = Run c /\ c_allow c = false) -> s0 q <> None -> history render e s0 h q = s0 q.
 Proof. exact RegenThm.no_overwrite_safe_history. Qed.
 Print Assumptions no_overwrite_safe_history.
 
-(* ... and the run ends in the overwrite error iff some target existed (targets pairwise distinct -- C11 --, creatable) *)
-Theorem no_overwrite_error_iff : forall render e s c,
-  c_dryrun c = false -> c_allow c = false -> NoDup (targets c) ->
-  (forall p, In p (targets c) -> can_create e p = true) ->
-  (snd (step render e s c) = Err EExists <-> exists p, In p (targets c) /\ s p <> None).
-Proof. exact RegenThm.no_overwrite_error_iff. Qed.
-Print Assumptions no_overwrite_error_iff.
-
-Theorem no_overwrite_ok_iff : forall render e s c,
-  c_dryrun c = false -> c_allow c = false -> NoDup (targets c) ->
-  (forall p, In p (targets c) -> can_create e p = true) ->
-  (snd (step render e s c) = Ok <-> forall p, In p (targets c) -> s p = None).
-Proof. exact RegenThm.no_overwrite_ok_iff. Qed.
-Print Assumptions no_overwrite_ok_iff.
-
-(* without any precondition on directories or distinctness: a conflict is never silently accepted *)
+(* a conflict is never silently accepted *)
 Theorem no_overwrite_conflict_fails : forall render e s c,
   c_dryrun c = false -> c_allow c = false ->
   (exists p, In p (targets c) /\ s p <> None) -> snd (step render e s c) <> Ok.
@@ -108,47 +147,102 @@ Theorem dry_run_inert : forall render e s c, c_dryrun c = true -> step render e 
 Proof. exact RegenThm.dry_run_inert. Qed.
 Print Assumptions dry_run_inert.
 
+(* ---- overwriting never gets stuck ------------------------------------------------------------------------------------- *)
+(* for an unprivileged user too: if the start tree only has entries the user may chmod and every target is ready there
+   (mkdir -p of its chain succeeds; missing -> its directory accepts it; present -> a regular file), then after any history
+   of runs and crashes of skeleton-compatible configurations an overwriting run succeeds, whatever the permission bits
+   have become *)
+Theorem regen_total_history : forall render e, render_independent render -> env_wf e -> forall h s0 c,
+  chmodable e s0 -> (forall p, In p (targets c) -> ready e s0 p = true) ->
+  compatible e c c -> (forall ev, In ev h -> compatible e c (ev_cfg ev)) ->
+  c_allow c = true -> c_dryrun c = false ->
+  snd (step render e (history render e s0 h) c) = Ok.
+Proof. exact RegenThm.regen_total_history. Qed.
+Print Assumptions regen_total_history.
+
+(* ---- crash points: an interrupted run (any prefix of the action list, possibly dying inside a write) -------------------- *)
+Theorem interrupted_then_rerun_equals_fresh : forall render e, render_independent render -> env_wf e ->
+  forall s c0 n j junk c p,
+  c_dryrun c = false -> c_filepps c <> [] -> copy_not_anc e c ->
+  dir_at_copy_target c (step_crash render e s c0 n j junk) = false ->
+  snd (step render e (step_crash render e s c0 n j junk) c) = Ok -> snd (step render e empty_fs c) = Ok -> In p (targets c) ->
+  obs (fst (step render e (step_crash render e s c0 n j junk) c) p) = obs (fst (step render e empty_fs c) p).
+Proof. intros render e Hi Hw s c0 n j junk. exact (RegenThm.regen_equals_fresh render e Hi Hw [Crash c0 n j junk] s). Qed.
+Print Assumptions interrupted_then_rerun_equals_fresh.
+
+Theorem interrupted_then_rerun_succeeds : forall render e, render_independent render -> env_wf e -> forall s c n j junk,
+  chmodable e s -> (forall p, In p (targets c) -> ready e s p = true) -> compatible e c c ->
+  c_allow c = true -> c_dryrun c = false ->
+  snd (step render e (step_crash render e s c n j junk) c) = Ok.
+Proof.
+  intros render e Hi Hw s c n j junk Hc Hr Hcc. apply (RegenThm.regen_total_history render e Hi Hw [Crash c n j junk] s c); auto.
+  intros ev [<-|[]]. exact Hcc.
+Qed.
+Print Assumptions interrupted_then_rerun_succeeds.
+
+Theorem interrupted_touches_only_footprint : forall render e s c n j junk q,
+  ~ In q (targets c) -> ~ In q (child_targets e c) -> (s q <> None \/ ~ In q (dir_targets e c)) ->
+  step_crash render e s c n j junk q = s q.
+Proof. intros render e s c n j junk. exact (RegenThm.foreign_event render e s (Crash c n j junk)). Qed.
+Print Assumptions interrupted_touches_only_footprint.
+
+(* --no-overwrite after a partial run: everything the crash left (including a truncated file) stays as it is, and if the
+   crash left any target the run ends in an error instead of completing it *)
+Theorem no_overwrite_after_crash : forall render e, render_independent render -> env_wf e -> forall s c0 n j junk c,
+  c_allow c = false -> c_dryrun c = false ->
+  (forall q, step_crash render e s c0 n j junk q <> None ->
+             fst (step render e (step_crash render e s c0 n j junk) c) q = step_crash render e s c0 n j junk q) /\
+  ((exists p, In p (targets c) /\ step_crash render e s c0 n j junk p <> None) ->
+   snd (step render e (step_crash render e s c0 n j junk) c) <> Ok).
+Proof.
+  intros render e Hi Hw s c0 n j junk c Ha Hd. split.
+  - intros q. now apply RegenThm.no_overwrite_safe.
+  - now apply RegenThm.no_overwrite_conflict_fails.
+Qed.
+Print Assumptions no_overwrite_after_crash.
+
 (* type files, templated support files and copied support files all are "the overwrite gate, then the rest" *)
 Theorem same_gate : forall render e c p k, c_dryrun c = false ->
   exists rest, forall s, write_item render e c s (p, k) = bind (handle_overwrite e s p (c_allow c)) rest.
 Proof. exact RegenThm.same_gate. Qed.
 Print Assumptions same_gate.
 
-(* ---- non-vacuity: the hypotheses are satisfiable and the interesting cases happen ---------------------------------- *)
-Definition ex_render (c p : N) : N := 1000000 + c * 10000 + p.
-Definition ex_user : env := mkEnv false 18 (fun _ => true).                       (* unprivileged, umask 022 *)
-Definition ex_cfg (allow : bool) (m : N) : cfg :=
-  mkCfg 3 allow false false [PPSetFileMode m] true true [(1, true); (2, false)] [3; 4] 420.
-(* 1: read-only leftover of class 9, 3: foreign text with mode 0, 7: foreign file that is not a target *)
-Definition ex_fs : fs := upd (upd (upd empty_fs 1 (mkF 1090001 292 true false)) 3 (mkF 5 0 true false)) 7 (mkF 6 256 true false).
+(* ---- non-vacuity ------------------------------------------------------------------------------------------------------- *)
+Example ex_render_independent : render_independent wit_render.
+Proof. intros s a s' a' cl p. reflexivity. Qed.
+Print Assumptions ex_render_independent.
+
+Example ex_env_wf : env_wf (wit_env false).
+Proof. intros p. unfold wit_env; cbn [ancestors]. destruct (N.eqb_spec p 2) as [->|]; [cbn; intuition discriminate|].
+  destruct (N.eqb_spec p 3) as [->|]; [cbn; intuition discriminate|]. destruct (N.eqb_spec p 4) as [->|]; cbn; intuition discriminate. Qed.
+Print Assumptions ex_env_wf.
+
+(* unprivileged user; 1 = nunavut/ read-write, 4 = nunavut/x.hpp a read-only (0o400) leftover, 2 = copied support target missing *)
+Definition ex_fs : fs := upd (upd empty_fs 1 (mkF 0 493 true true)) 4 (mkF 55 256 true false).
+Definition ex_cfg (allow : bool) : cfg := wit_cfg allow false [4] [(2, false)].
 
 Example ex_overwrite_readonly :
-  snd (step ex_render ex_user ex_fs (ex_cfg true 420)) = Ok /\
-  map (fun p => obs (fst (step ex_render ex_user ex_fs (ex_cfg true 420)) p)) [1; 2; 3; 4; 7]
-  = [Some (1030001, 420); Some (1030002, 420); Some (1030003, 420); Some (1030004, 420); Some (6, 256)].
-Proof. vm_compute. split; reflexivity. Qed.
+  snd (step wit_render (wit_env false) ex_fs (ex_cfg true)) = Ok /\
+  map (fun p => obs (fst (step wit_render (wit_env false) ex_fs (ex_cfg true)) p)) [1; 2; 3; 4]
+  = [Some (0, 493); Some (1070002, 292); None; Some (1070004, 292)] /\
+  dir_at_copy_target (ex_cfg true) ex_fs = false /\ targets (ex_cfg true) = [2; 4] /\
+  forallb (ready (wit_env false) ex_fs) (targets (ex_cfg true)) = true.
+Proof. vm_compute. repeat split; reflexivity. Qed.
 Print Assumptions ex_overwrite_readonly.
 
-Example ex_history_then_fresh_equal :
-  let h := [ex_cfg true 292; ex_cfg false 420; ex_cfg true 0] in
-  snd (step ex_render ex_user (history ex_render ex_user ex_fs h) (ex_cfg true 384)) = Ok /\
-  snd (step ex_render ex_user empty_fs (ex_cfg true 384)) = Ok /\
-  targets (ex_cfg true 384) = [1; 2; 3; 4].
+(* killed inside the write of the second item, then rerun: same as fresh; then --no-overwrite after the same crash: error,
+   truncated file (content id 9) kept *)
+Example ex_crash_then_rerun :
+  let s1 := step_crash wit_render (wit_env false) ex_fs (ex_cfg true) 1 2 (Some 9) in
+  obs (s1 4) = Some (9, 400) /\
+  snd (step wit_render (wit_env false) s1 (ex_cfg true)) = Ok /\
+  map (fun p => obs (fst (step wit_render (wit_env false) s1 (ex_cfg true)) p)) [2; 4]
+  = map (fun p => obs (fst (step wit_render (wit_env false) empty_fs (ex_cfg true)) p)) [2; 4] /\
+  is_ok (snd (step wit_render (wit_env false) s1 (ex_cfg false))) = false /\
+  obs (fst (step wit_render (wit_env false) s1 (ex_cfg false)) 4) = Some (9, 400).
 Proof. vm_compute. repeat split; reflexivity. Qed.
-Print Assumptions ex_history_then_fresh_equal.
+Print Assumptions ex_crash_then_rerun.
 
-Example ex_no_overwrite_conflict :
-  step ex_render ex_user ex_fs (ex_cfg false 420) = (ex_fs, Err EExists) /\ NoDup (targets (ex_cfg false 420)).
-Proof.
-  split; [reflexivity|]. vm_compute. repeat constructor; cbn; intuition discriminate.
-Qed.
-Print Assumptions ex_no_overwrite_conflict.
-
-Example ex_chmodable : chmodable ex_user ex_fs.
-Proof.
-  intros q f. unfold ex_fs, upd.
-  destruct (N.eqb q 7); [intros H; injection H as <-; reflexivity|].
-  destruct (N.eqb q 3); [intros H; injection H as <-; reflexivity|].
-  destruct (N.eqb q 1); [intros H; injection H as <-; reflexivity|]. discriminate.
-Qed.
-Print Assumptions ex_chmodable.
+Example ex_compatible : compatible (wit_env false) (ex_cfg true) (ex_cfg true).
+Proof. split; intros q Ha [Ht|Ht]; vm_compute in Ha, Ht; intuition (subst; discriminate). Qed.
+Print Assumptions ex_compatible.
